@@ -24,6 +24,17 @@ pub struct Monitors {
     pub counter: bool,  // C12 (versions_since bookkeeping + urgency of real histories)
     pub frame: bool,    // C18
     pub isolation: bool, // C09 (dump of other clients unchanged)
+    pub facts: bool,    // C14: record what the subject's own storage holds after each request
+}
+
+/// What the subject's own storage holds right after a request (read through the storage traits).
+#[derive(Clone, Debug, Default)]
+pub struct Facts {
+    pub latest: Option<Uuid>,
+    /// child of the request's parent id: (version id, parent id, len, hash)
+    pub child: Option<(Uuid, Uuid, usize, u64)>,
+    /// (version id, len, hash)
+    pub snap: Option<(Uuid, usize, u64)>,
 }
 
 #[derive(Clone, Debug)]
@@ -90,6 +101,7 @@ pub struct RunOut {
     pub abs_state: Vec<String>,
     pub resps: Vec<Vec<Resp>>,
     pub http: Vec<Option<(crate::http::HttpReq, crate::http::HttpResp)>>,
+    pub facts: Vec<Facts>,
     pub violations: Vec<Violation>,
     pub cov: Cov,
     pub clients: Vec<ClientObs>,
@@ -641,6 +653,7 @@ impl<'a> Runner<'a> {
         let mut abs_state = vec![];
         let mut resps = vec![];
         let mut https = vec![];
+        let mut facts_out = vec![];
         let mut all_reqs = vec![];
         let mut reopen_rng = Rng::new(self.hist.seed).fork(0x5E0 + self.subj.kind.reopen_pct as u64);
         let mut trace_hash: u64 = 0xcbf29ce484222325;
@@ -696,6 +709,30 @@ impl<'a> Runner<'a> {
                     https.push(self.subj.last_http.clone());
                 } else {
                     https.push(None);
+                }
+                if self.mon.facts {
+                    let mut f = Facts::default();
+                    let cid = self.clients[c].id;
+                    if let Ok(mut txn) = self.subj.storage.txn(cid) {
+                        if let Ok(Some(cl)) = txn.get_client() {
+                            f.latest = Some(cl.latest_version_id);
+                            if let Some(sn) = cl.snapshot {
+                                if let Ok(Some(d)) = txn.get_snapshot_data(sn.version_id) {
+                                    f.snap = Some((sn.version_id, d.len(), crate::dump::hash_bytes(&d)));
+                                }
+                            }
+                        }
+                        let pid = match req {
+                            Req::AddVersion { parent, .. } | Req::GetChild { parent } => Some(*parent),
+                            _ => None,
+                        };
+                        if let Some(pid) = pid {
+                            if let Ok(Some(v)) = txn.get_version_by_parent(pid) {
+                                f.child = Some((v.version_id, v.parent_version_id, v.history_segment.len(), crate::dump::hash_bytes(&v.history_segment)));
+                            }
+                        }
+                    }
+                    facts_out.push(f);
                 }
                 let a = self.abs_pre_observe(&resp, c, req);
                 let sit = format!("{}|{}|arg={}|{}", req.name(), st_class, arg_class, resp.outcome());
@@ -1030,6 +1067,7 @@ impl<'a> Runner<'a> {
             abs_state,
             resps,
             http: https,
+            facts: facts_out,
             violations: self.viol,
             cov: self.cov,
             clients: self.clients,
